@@ -15,12 +15,14 @@ LEVEL_TEXT = ("Proof (Coq): hull_is_upper_hull (the monotone chain with the sour
               "point is a threshold rule of the group + the arg-max is a maximum + the overall curve is the frequency-weighted "
               "sum; hence C05_simple_optimal / C05_eo_optimal / C05_eo_objective_achieved: no family of per-group "
               "randomisations over (flipped) thresholdings with a common grid value of the constrained metric beats the "
-              "fitted rule, for every input with both labels per group. Tie to the code: translators + differential run; "
+              "fitted rule, for every input with both labels per group. Tie to the code: translators (t_threshopt regenerates "
+              "the frequency-weighted sum, the first arg-max, the common index, the pointwise min, the objective counts and "
+              "p_ignore; C05_optimisation_is_source / C05_eo_optimisation_is_source prove them equal to the model) + differential run; "
               "oracle = objective achieved by the implementation's own pmf vs the model optimum.")
-LEVEL_NOTE = ("Trusted: Coq kernel + vm_compute; the two translators; the harness. np.around(., 15) of the equalized-odds "
+LEVEL_NOTE = ("Trusted: Coq kernel + vm_compute; the three translators; the harness. np.around(., 15) of the equalized-odds "
               "objective and float rounding are outside the model (near-ties are compared by value only).")
 TECHNIQUE = "Coq proof (hull correctness + Jensen on the hull chain + arg-max) about the executable model; differential run with value oracle"
-TRUSTED = ["Coq 8.16.1 kernel and vm_compute", "translators/t_metricdict.py, translators/t_hull.py (Python ast -> Gallina)",
+TRUSTED = ["Coq 8.16.1 kernel and vm_compute", "translators/t_metricdict.py, translators/t_hull.py, translators/t_threshopt.py (Python ast -> Gallina)",
            "harness/props/_c04_common.py (generators, oracles computed from the implementation's own _pmf_predict)",
            "numpy/pandas float arithmetic, groupby and stable multi-key sort (modelled, compared by correspondence)",
            "no axioms (Print Assumptions: closed)"]
@@ -31,7 +33,10 @@ ASSUMPTIONS = ["scores are finite; the model uses integer score levels (any fini
 RULE = ("cases: every multiset (up to group swap and order-preserving relabelling of score levels) of (group,label,level) rows "
         "with 2 groups, <=3 levels, <=5 rows (thorough <=6) in which each group has both labels, each with 3 (thorough 6) "
         "configurations taken in rotation from the 378 = constraints x admissible objectives x flip x grid{1,2,3,4,5,7,10}; "
-        "plus random tables (2..5 groups, 2..8 rows each, <=5 levels, grid sizes up to 1000). non-trivial = the chosen grid "
+        "plus random tables (2..5 groups, 2..8 rows each, <=5 levels, grid sizes up to 1000); plus four structured streams "
+        "(45 each, thorough 250): flip=False with one anti-correlated group (3/4 equalized odds), a single-distinct-score "
+        "group beside heavily tied groups, a 2-row group beside a 10..18-row group / 1 row of one label against many, "
+        "grid_size 1 and 2 (frequencies: tags shape:*, eo:*). non-trivial = the chosen grid "
         "value is interior, or some group's rule is a genuine mixture (0<p0<1), or p_ignore>0")
 EXHAUSTIVE = {"quick": False, "thorough": False}
 PARTIAL = []
